@@ -6,7 +6,7 @@ from . import c01, common, gen_prog, mutants
 from . import gen_types as T
 from .common import Failure
 
-PROP_MODULES = ["GarbleVerif.Props.C17"]
+PROP_MODULES = ["GarbleVerif.Props.C17", "GarbleVerif.Props.C17Typed"]
 
 # definitions every mutated program gets (all of them used by `main` through the inserted prelude)
 DEFS = """struct S17 { a: u8, b: bool }
@@ -68,6 +68,8 @@ STATEMENTS = [
     ("field-count", "let bad = S17 { a: w17a };"),
     ("field-count", "let bad = S17 { a: w17a, b: w17t, c: w17a };"),
     ("field-count", "let bad = S17 { b: w17t };"),
+    ("field-count", "let bad = S17 { a: w17a, a: w17a };"),
+    ("field-count", "let bad = S17 { b: w17t, b: w17t };"),
     ("field-types", "let bad = S17 { a: w17t, b: w17t };"),
     ("field-count", "let bad = E17::B();"),
     ("field-count", "let bad = E17::B(w17a, w17a);"),
